@@ -62,7 +62,7 @@ CHECKS = {
         note="Bounded universe; BLAKE3 collision-freeness; hooks verif::legacy_state_root / accumulator_state_root / apply_ops.",
         design="3 C06"),
     "C18": dict(
-        technique="TLC model checking of MC_C18.tla over Bus.tla (every emission order of every bounded token subset; finalize = order-free oracle of the emission set) + conformance replay into the real MaterializationBus (all n! orders for sets up to 7) + metamorphic relation on real bytes/digest/encodings + trace validation (BusTrace.tla) of seeded 8-40-emission runs",
+        technique="TLC model checking of MC_C18.tla over Bus.tla (every emission order of every bounded token subset; finalize = order-free oracle of the emission set) + conformance replay into the real MaterializationBus (all n! orders for sets up to 7) + metamorphic relation on real bytes/digest/encodings + trace validation (BusTrace.tla) of seeded 8-40-emission runs + truth leg: TLC over TruthBus.tla/MC_TruthBus.tla (the bus inside Engine transactions: begin/emit/commit/abort/failed commit, recorded outputs, ViewSession/TruthSink playback) with every transition replayed into a real Engine, ProvenanceService, PlaybackCursor, ViewSession and TruthSink and twin-engine order/worker metamorphic runs",
         text="Bus.tla transcribes register/emit/finalize and the eight reducers on byte sequences and carries a second, declarative oracle defined on the emission SET (for commutative reducers on the payload BAG only). "
              "TLC walks every order of every subset (perm cfgs, repeated (channel,key) included) or every repeat-free subset (set cfgs) and checks that pending is the set of first arrivals, a repeat is rejected and changes "
              "nothing, and the report equals the oracle. Every finalized behaviour is exported with its predicted report and replayed on the real bus through ScopedEmitter; for set cfgs the harness replays all permutations. "
